@@ -203,10 +203,14 @@ func (s *Search) try(index uint64, tape *sim.Tape) *CaseOut {
 				defer wd.Stop()
 				return s.F(s.Env, sim.ReplayTape(v))
 			}
+			candidates := 400
+			if out.V.Kind == "superlinear-work" {
+				candidates = 12 // each candidate is three runs on inputs up to 100 KB of a slow path
+			}
 			min := sim.Shrink(orig, func(v []uint64) bool {
 				o := guarded(v)
 				return o.V != nil && o.V.Key() == key
-			}, 400)
+			}, candidates)
 			final := guarded(min)
 			v := out.V
 			if final.V != nil && final.V.Key() == key {
